@@ -9,7 +9,7 @@ PROOF_MODULE = "Nlmodel.Proofs.C12"
 PROOF_FILES = ["Nlmodel/Proofs/C12.lean", "Nlmodel/Model/VM.lean", "Nlmodel/Spec/Eval.lean"]
 THEOREM_FILE = PROOF_FILES[0]
 LEVEL_TEXT = ("Lean theorems on the machine model's flat stack with vm.rs's base-pointer arithmetic: Call places the new base pointer at the first argument (parameter i is argument i), null-initialises every other local slot (fresh activation), saves the caller's return address and base pointer, and touches nothing else; too many arguments / the 16-bit stack limit / a non-function callee are errors raised before anything is pushed; Return(Value) discards exactly the callee's part of the stack, pushes the result on the caller's part, which is unchanged below the callee's base pointer, and resumes the caller's frame. Definitional level: arguments are bound by position (missing ones null), the body runs in an activation containing the parameters only, and the caller's activation is put back exactly; antwoord from any depth ends the call. WHOLE CALLS (C12_call_simulation, instance of the forward simulation of C01 stage 4): in any frame `below ++ locals ++ operands` with any suspended callers, a call expression of the scalar/function fragment whose definitional evaluation gives v brings the machine to the instruction after the Call with `below` untouched, the caller's locals as the restored activation has them, exactly v pushed, and the same suspended callers - through recursion, nested calls, early antwoord and loops in the callee; the only other outcomes are the matching error or the machine's stack/frame limit. Tied to vm.rs/compiler.rs by real eval vs definitional evaluator vs machine model (step counts, stack height at Halt, collections) on programs with up to 6 functions of 0-4 parameters and 0-4 locals calling each other from every expression context, recursion to depth 200, and directed runs to the stack limit, and a frame-shape x boundary-depth matrix around the 65535-slot limit (value right below it, stack-overflow error at the same depth as the machine model above it).")
-LEVEL_NOTE = ("Trusted: Lean kernel; whole calls are simulated for the scalar/function fragment (C12_call_simulation) AND for callees and arguments with heap values through every collection (C12_call_simulation_with_heap_values: below untouched, caller's locals and pending operands related after the call to what they were related to before); that NO callee of ANY accepted program pops below its own base pointer is the operand-height invariant of C02, now a theorem for every program the compiler model accepts (C02_compiler_verifiable); nested function literals are outside the simulation fragment.")
+LEVEL_NOTE = ("Trusted: Lean kernel; whole calls are simulated for the scalar/function fragment (C12_call_simulation) AND for callees and arguments with heap values through every collection (C12_call_simulation_with_heap_values: below untouched, caller's locals and pending operands related after the call to what they were related to before); that NO callee of ANY accepted program pops below its own base pointer is the operand-height invariant of C02, now a theorem for every program the compiler model accepts (C02_compiler_verifiable); nested function literals are stage 7 of the C01 simulation.")
 TECHNIQUE = "Lean 4 proof (call/return frame lemmas; whole-call forward simulation on the flat stack; activation isolation in the definitional semantics) + differential call-heavy programs and stack-limit matrix"
 RULE = ("generated programs with up to 6 functions (0-4 parameters, 0-4 locals) calling each other directly, mutually and recursively (depth "
         "<= 200), from operands, array literals, argument lists, conditions, with functions stored in variables/arrays, passed and returned; "
